@@ -176,7 +176,7 @@ func canonMsg(m *raftpb.Message) string {
 		strings.Join(es, ";"))
 }
 
-func errClass(err error) string {
+func streamErrClass(err error) string {
 	switch {
 	case err == io.EOF:
 		return "eof"
@@ -259,7 +259,7 @@ func newStream(c *Ctx) func(string) string {
 			for {
 				m, err := dec()
 				if err != nil {
-					out = append(out, errClass(err))
+					out = append(out, streamErrClass(err))
 					// ORACLE: what was decoded is a prefix of what was sent, then an error; the uncut stream gives everything
 					if (!isV2 || allWf) && k == len(all) && (n != len(sent) || err != io.EOF) {
 						c.Violation("roundtrip-incomplete:"+f[0], fmt.Sprintf("decoded %d of %d messages, then %v", n, len(sent), err))
